@@ -118,3 +118,55 @@ Theorem match_op_through_pointer :
 Proof. exact C01.match_op_through_pointer. Qed.
 Print Assumptions match_op_through_pointer.
 
+
+(* ---- ties to the constant tables regenerated from the Go sources (tools/gotables -> GoTables.v) ---- *)
+From Coq Require Import List String ZArith NArith Bool. From Bexpr Require Import Base Strconv Ast Univ Eval Api Dump GoTables TableTie. Import ListNotations.
+
+Theorem coercion_dispatch :
+  forall k : kind, table_or_default (kind_go k) go_coerce_of_kind = Some (coerce_fn_of_class (sclass_of k)).
+Proof. exact TableTie.coercion_dispatch. Qed.
+Print Assumptions coercion_dispatch.
+
+Theorem equality_dispatch :
+  forall k : kind, table_or_default (kind_go k) go_equality_fn = Some (eq_fn_of_class (sclass_of k)).
+Proof. exact TableTie.equality_dispatch. Qed.
+Print Assumptions equality_dispatch.
+
+Theorem coerce_calls :
+  assoc "CoerceInt64" go_coerce_calls = Some ("strconv.ParseInt", [0; 64]) /\
+  assoc "CoerceUint64" go_coerce_calls = Some ("strconv.ParseUint", [0; 64]) /\
+  assoc "CoerceBool" go_coerce_calls = Some ("strconv.ParseBool", []) /\
+  assoc "CoerceFloat32" go_coerce_calls = Some ("strconv.ParseFloat", [32]) /\
+  assoc "CoerceFloat64" go_coerce_calls = Some ("strconv.ParseFloat", [64]).
+Proof. exact TableTie.coerce_calls. Qed.
+Print Assumptions coerce_calls.
+
+Theorem coerce_uses_those_calls :
+  forall (k : kind) (raw : string),
+  coerce k raw =
+  match sclass_of k with
+  | SBool => match parse_bool raw with
+             | POk b => Ok (LBool b)
+             | PErr e => Err (perr_c e)
+             end
+  | SInt => match parse_int raw 0 64 with
+            | POk z => Ok (LInt z)
+            | PErr e => Err (perr_c e)
+            end
+  | SUint => match parse_uint raw 0 64 with
+             | POk z => Ok (LUint z)
+             | PErr e => Err (perr_c e)
+             end
+  | SF32 => match parse_float raw 32 with
+            | POk z => Ok (LF32 z)
+            | PErr e => Err (perr_c e)
+            end
+  | SF64 => match parse_float raw 64 with
+            | POk z => Ok (LF64 z)
+            | PErr e => Err (perr_c e)
+            end
+  | _ => Ok (LStr raw)
+  end.
+Proof. exact TableTie.coerce_uses_those_calls. Qed.
+Print Assumptions coerce_uses_those_calls.
+
